@@ -80,28 +80,57 @@ def err_value(ev):
     return values.SYM('vf', result_value(ev), 'v1', 'f0')
 
 
+def _index(q):
+    idx = getattr(q, '_site_index', None)
+    if idx is None:
+        ref = {}
+        tested = {}
+        for i, (a, b, ev) in enumerate(q.E):
+            if ev is None:
+                continue
+            if ev['k'] == 'refine':
+                ref.setdefault((ev['val'], ev['vname']), []).append(i)
+            elif ev['k'] == 'tested':
+                tested.setdefault(ev.get('val'), []).append(i)
+        idx = q._site_index = (ref, tested)
+    return idx
+
+
 def refines(q, val, vname):
-    return q.edges(lambda x: x['k'] == 'refine' and x['val'] == val and x['vname'] == vname)
+    return _index(q)[0].get((val, vname), [])
+
+
+def _benign_index(ctx, q):
+    """err value -> branch edges (eq == 1) that classify it as benign absence / AlreadyExists-like kind test."""
+    idx = getattr(q, '_benign_index', None)
+    if idx is not None:
+        return idx
+    cls_path = 'local::' + ctx.B[ctx.role('absence_classifier')]['path']
+    idx = {}
+    for i, (a, b, x) in enumerate(q.E):
+        if x is None or x['k'] != 'branch' or x.get('eq') != 1:
+            continue
+        t = VAL[x['val']]
+        if t[0] != 'sym':
+            continue
+        if t[1] == 'app' and t[2] == cls_path:
+            pass
+        elif t[1] == 'cmp' and t[2] == 'Eq' and any(VAL[s_][0] == 'agg' and VAL[s_][1] == 'std::io::ErrorKind' for s_ in values.subs(x['val'])):
+            pass
+        else:
+            continue
+        for s_ in values.subs(x['val']):
+            ts = VAL[s_]
+            if ts[0] == 'sym' and ts[1] == 'vf' and ts[3] == 'v1' and ts[4] == 'f0':
+                idx.setdefault(s_, []).append(i)
+    q._benign_index = idx
+    return idx
 
 
 def benign_edges(ctx, q, ev):
     """branch edges that classify *this* event's error as benign absence (classifier true) or, for an
     exclusive publish, as AlreadyExists."""
-    cls_path = 'local::' + ctx.B[ctx.role('absence_classifier')]['path']
-    e = err_value(ev)
-
-    def pred(x):
-        if x['k'] != 'branch' or x.get('eq') != 1:
-            return False
-        t = VAL[x['val']]
-        if t[0] != 'sym':
-            return False
-        if t[1] == 'app' and t[2] == cls_path:
-            return e in values.subs(x['val'])
-        if t[1] == 'cmp' and t[2] == 'Eq' and e in values.subs(x['val']):
-            return any(VAL[s][0] == 'agg' and VAL[s][1] == 'std::io::ErrorKind' for s in values.subs(x['val']))
-        return False
-    return q.edges(pred)
+    return _benign_index(ctx, q).get(err_value(ev), [])
 
 
 def analyse(ctx, entries):
@@ -115,56 +144,65 @@ def analyse(ctx, entries):
         errs = q.terminals(lambda ev: ev['k'] == 'ret' and ev.get('variant') == 'Err')
         panics = q.terminals(lambda ev: ev['k'] == 'panic')
         mkdirs = q.prim_edges('ns_create_dir')
-        seen = {}
         by_desc = {}
-        fall = fallible_events(ctx, q)
-        for e in fall:
+        for e in fallible_events(ctx, q):
             by_desc.setdefault(describe(ctx, q, q.E[e][2]), []).append(e)
         for d, edges in by_desc.items():
+            ev0 = q.E[edges[0]][2]
             rec = {'entry': name, 'site': d, 'q': q, 'edges': edges, 'inspected': False, 'bool_only': True, 'escapes': [], 'benign': False,
                    'benign_bad': [], 'panic_on_err': [], 'dropped': [], 'spans': sorted({q.E[e][2]['site'][2] for e in edges}),
-                   'surfaces': [], 'escapes_without_mkdir': [], 'cls': cls_of(q.E[edges[0]][2]) if q.E[edges[0]][2]['k'] == 'ext' else q.E[edges[0]][2]['k']}
+                   'surfaces': [], 'escapes_without_mkdir': [], 'cls': cls_of(ev0) if ev0['k'] == 'ext' else ev0['k']}
             recs.append(rec)
+            ErrE, OkE, ben, errvals, rvs = [], [], [], set(), set()
+            uninspected = []
             for e in edges:
                 ev = q.E[e][2]
                 rv = result_value(ev)
-                ErrE = refines(q, rv, 'Err')
-                OkE = refines(q, rv, 'Ok')
-                ben = benign_edges(ctx, q, ev)
-                # "used as a boolean": the only inspection of the result is is_ok()/is_err()
-                tested = q.edges(lambda x: x['k'] == 'tested' and x.get('val') == rv)
-                after_err = {q.E[x][1] for x in ErrE}
-                if not tested or not all(q.E[x][0] in after_err for x in tested) or len(tested) < len(ErrE):
+                ee = refines(q, rv, 'Err')
+                oe = refines(q, rv, 'Ok')
+                tested = _index(q)[1].get(rv, [])
+                after_err = {q.E[x][1] for x in ee}
+                if not tested or not all(q.E[x][0] in after_err for x in tested) or len(tested) < len(ee):
                     rec['bool_only'] = False
-                if ErrE or OkE:
-                    rec['inspected'] = True
-                else:
-                    r = q.reach_fwd([q.E[e][1]], blocked=edges)
-                    if r & oks:
-                        rec['dropped'].append(e)
+                if not ee and not oe:
+                    uninspected.append(e)
                     continue
-                ev_err = err_value(ev)
-                # Err exits that carry this very error (re-executions of the site are cut: they are other instances)
-                rE = q.reach_fwd([q.E[x][1] for x in ErrE], blocked=edges) if ErrE else set()
-                carried = [t for t in errs if t in rE and (ev_err in values.subs(q.g.term[t]['val']) or q.g.term[t]['val'] == rv)]
-                if carried:
-                    rec['surfaces'].append((e, carried[0]))
-                if ben:
-                    rec['benign'] = True
-                    rb = q.reach_fwd([q.E[x][1] for x in ben], blocked=edges)
-                    bad = [t for t in errs if t in rb and ev_err in values.subs(q.g.term[t]['val'])]
-                    if bad or not (q.reach_fwd([q.E[x][1] for x in ben]) & oks):
-                        rec['benign_bad'].append((e, bad[0] if bad else None))
-                esc = q.must_follow(ErrE, set(ben) | set(edges), oks)
-                for x in esc:
-                    rec['escapes'].append((e, x))
-                esc2 = q.must_follow(ErrE, set(ben) | set(edges) | set(mkdirs), oks)
-                for x in esc2:
-                    rec['escapes_without_mkdir'].append((e, x))
+                rec['inspected'] = True
+                ErrE += ee
+                OkE += oe
+                ben += benign_edges(ctx, q, ev)
+                errvals.add(err_value(ev))
+                rvs.add(rv)
+            ErrE, OkE, ben = sorted(set(ErrE)), sorted(set(OkE)), sorted(set(ben))
+            if uninspected:
+                can = q.reach_bwd(list(oks), blocked=edges)
+                rec['dropped'] = [e for e in uninspected if q.E[e][1] in can]
+            if not ErrE and not OkE:
+                continue
+
+            def carries(t):
+                v = q.g.term[t]['val']
+                return v in rvs or bool(errvals & values.subs(v))
+            # Err exits that carry this very error (re-executions of the site are cut: they are other instances)
+            rE = q.reach_fwd([q.E[x][1] for x in ErrE], blocked=edges) if ErrE else set()
+            carried = [t for t in errs if t in rE and carries(t)]
+            if carried:
+                rec['surfaces'].append((edges[0], carried[0]))
+            if ben:
+                rec['benign'] = True
+                rb = q.reach_fwd([q.E[x][1] for x in ben], blocked=edges)
+                bad = [t for t in errs if t in rb and bool(errvals & values.subs(q.g.term[t]['val']))]
+                if bad or not (q.reach_fwd([q.E[x][1] for x in ben]) & oks):
+                    rec['benign_bad'].append((edges[0], bad[0] if bad else None))
+            for x in q.must_follow(ErrE, set(ben) | set(edges), oks):
+                rec['escapes'].append((edges[0], x))
+            for x in q.must_follow(ErrE, set(ben) | set(edges) | set(mkdirs), oks):
+                rec['escapes_without_mkdir'].append((edges[0], x))
+            if panics:
                 rO = q.reach_fwd([q.E[x][1] for x in OkE], blocked=edges) if OkE else set()
                 ok_sites = {q.g.term[p]['site'][:2] for p in panics if p in rO}
                 for p in panics:
                     if p in rE and q.g.term[p]['site'][:2] not in ok_sites:
-                        rec['panic_on_err'].append((e, p))
+                        rec['panic_on_err'].append((edges[0], p))
     ctx._site_recs = (tuple(e[0] for e in entries), recs)
     return recs
